@@ -3,7 +3,7 @@
    tables goextract read from apkindex.go / package.go / installed.go /
    passwd.go / group.go on this run (Generated/FieldLetters.v). *)
 From Apko Require Import Base.Prelude Base.C16Lib Model.Formats Spec.FormatsSpec
-  Proofs.FormatsProofs Proofs.FormatsPasswd Generated.FieldLetters.
+  Proofs.FormatsProofs Proofs.FormatsPasswd Proofs.FormatsPath Proofs.FormatsSort Generated.FieldLetters.
 
 (* the APKINDEX template in the source is the one the theorems are about *)
 Theorem c16_index_template_pinned :
@@ -182,3 +182,46 @@ Print Assumptions c16_passwd_validator_decides.
 Theorem c16_group_validator_decides : forall orig rb, groups_rt_tags orig rb = [] <-> GroupsRoundTrip orig rb.
 Proof. exact groups_validator_decides. Qed.
 Print Assumptions c16_group_validator_decides.
+
+(* ---- sortTarHeaders ----------------------------------------------------------
+   [sort_envelope hs]: the cleaned names are pairwise different and none is ".";
+   every entry passes the validator's own [reachable] test (each ancestor is
+   present as a directory entry and the top-level one has a child — outside is
+   finding C16-F5; a directory named twice is C16-F7); non-directory names end in
+   an ordinary component.  For EVERY such header list, of any size and depth, and
+   for every order [ord] in which Go may range over the directoryChildren map:
+   the recursion's fuel suffices (the result is [Ok]), the result does not depend
+   on [ord], is a permutation of the input, every non-directory entry is
+   governed by the directory entry that precedes it (what the F:/R: lines need),
+   and the validator run on the implementation's output has nothing to report. *)
+Theorem c16_sort_headers :
+  forall hs ord, sort_envelope hs -> Permutation.Permutation ord (map fst (dir_children hs)) ->
+  exists out, sort_headers_ord ord hs = Ok out /\ sort_headers hs = Ok out /\
+    Permutation.Permutation out hs /\ governed None out = true /\ sort_tags hs out = [].
+Proof. exact sort_headers_envelope. Qed.
+Print Assumptions c16_sort_headers.
+
+(* independence of the iteration order holds for every input, inside the envelope or not *)
+Theorem c16_sort_headers_order_independent :
+  forall hs ord, Permutation.Permutation ord (map fst (dir_children hs)) -> sort_headers_ord ord hs = sort_headers hs.
+Proof. exact (fun hs ord => sort_headers_ord_indep ord hs). Qed.
+Print Assumptions c16_sort_headers_order_independent.
+
+Example c16_sort_headers_ex :
+  let hs := [mkHdr "usr/bin/ls" false 493 0 0 ""; mkHdr "./usr/" true 493 0 0 ""; mkHdr "usr/bin" true 488 3 4 "";
+             mkHdr "usr/lib/" true 493 0 0 ""] in
+  sort_envelope hs /\ Permutation.Permutation ["usr"; "usr/bin"; "."] (map fst (dir_children hs)).
+Proof.
+  cbn zeta. split.
+  - constructor.
+    + vm_compute. repeat constructor; cbn; intuition discriminate.
+    + intros h I. cbn in I. repeat destruct I as [<-|I]; try (vm_compute; discriminate). destruct I.
+    + intros h I. cbn in I. repeat destruct I as [<-|I]; try (vm_compute; reflexivity). destruct I.
+    + intros h I D. cbn in I. repeat destruct I as [<-|I]; try discriminate D; try (vm_compute; repeat split; discriminate). destruct I.
+  - vm_compute. apply Permutation.perm_swap || (eapply Permutation.perm_trans; [apply Permutation.perm_swap|]; repeat constructor).
+Qed.
+
+(* the validator decides the readable statement *)
+Theorem c16_sort_validator_decides : forall input output, sort_tags input output = [] <-> SortedWell input output.
+Proof. exact sort_validator_decides. Qed.
+Print Assumptions c16_sort_validator_decides.
